@@ -15,10 +15,12 @@ sections from it, the harness prints the three real columns).
 
 `Main` is the main-chain view (what a replay must reproduce exactly); `Recs` are the per-block
 records that are only ever inserted (bodies, ext, block→epoch index, epoch records) — the node keeps
-them for side-chain blocks too.  The epoch *number* → index row lives in `Recs` because that is how
-the code treats it (`insert_epoch_ext` writes it for every block that opens an epoch, main chain or
-not — finding F9); `Props/C02.lean` proves that it is the one row that is *not* a function of the
-main chain.
+them for side-chain blocks too.  The epoch *number* → index row is part of `Main`: since the repair of finding F9
+(`fix: the epoch-number index must follow the main chain`) it is written by `attach_block` when the
+first block of an epoch is attached and deleted by `detach_block`, and `verify_block` stores only the
+epoch record.  The behaviour before the repair (`insert_epoch_ext` wrote the number row for every
+block that opens an epoch, main chain or not, and nothing else touched it) is kept as
+`PreFix.process` / `PreFix.truncate` for the regression witness in `Props/C02.lean`.
 -/
 import CkbVerif.Gen.Store
 namespace CkbVerif.Store
@@ -102,6 +104,8 @@ structure Main where
   index : Nat → Option Nat
   rindex : Nat → Option Nat
   uncles : Nat → Option Unit
+  /-- COLUMN_EPOCH, 8-byte keys: epoch number → key of the epoch record -/
+  epochNum : Nat → Option Nat
   tip : Option Nat
   curEpoch : Option EpochRec
 
@@ -111,7 +115,6 @@ structure Recs where
   ext : Nat → Option Ext
   blockEpoch : Nat → Option Nat
   epochExt : Nat → Option EpochRec
-  epochNum : Nat → Option Nat
 
 structure View where
   m : Main
@@ -122,11 +125,11 @@ def upd {α β : Type} [DecidableEq α] (f : α → Option β) (k : α) (v : Opt
 
 def Main.empty : Main :=
   { cells := fun _ => none, txInfo := fun _ => none, index := fun _ => none, rindex := fun _ => none,
-    uncles := fun _ => none, tip := none, curEpoch := none }
+    uncles := fun _ => none, epochNum := fun _ => none, tip := none, curEpoch := none }
 
 def Recs.empty : Recs :=
   { bodies := fun _ => none, ext := fun _ => none, blockEpoch := fun _ => none,
-    epochExt := fun _ => none, epochNum := fun _ => none }
+    epochExt := fun _ => none }
 
 def View.empty : View := ⟨Main.empty, Recs.empty⟩
 
@@ -172,15 +175,34 @@ def putAll {α β : Type} [DecidableEq α] (f : α → Option β) (v : Option β
   | [] => f
   | k :: ks => putAll (upd f k v) v ks
 
-def attach (m : Main) (b : Block) : Main :=
+/-- `get_block_epoch(hash)`: block → epoch index, then the epoch record -/
+def epochOf (r : Recs) (id : Nat) : Option EpochRec :=
+  match r.blockEpoch id with
+  | some k => r.epochExt k
+  | none => none
+
+/-- the epoch-number row write of `attach_block`: `e` is what `get_block_epoch(block)` returned -/
+def attachEpochNum (f : Nat → Option Nat) (e : Option EpochRec) (b : Block) : Nat → Option Nat :=
+  match e with
+  | some e => if e.start = b.number then upd f e.number (some e.key) else f
+  | none => f
+
+def detachEpochNum (f : Nat → Option Nat) (e : Option EpochRec) (b : Block) : Nat → Option Nat :=
+  match e with
+  | some e => if e.start = b.number then upd f e.number none else f
+  | none => f
+
+def attach (m : Main) (e : Option EpochRec) (b : Block) : Main :=
   { m with
     txInfo := putTxInfos b m.txInfo 0 b.txs
     index := upd m.index b.number (some b.id)
     uncles := putAll m.uncles (some ()) b.uncles
-    rindex := upd m.rindex b.id (some b.number) }
+    rindex := upd m.rindex b.id (some b.number)
+    epochNum := attachEpochNum m.epochNum e b }
 
-def detach (m : Main) (b : Block) : Main :=
+def detach (m : Main) (e : Option EpochRec) (b : Block) : Main :=
   { m with
+    epochNum := detachEpochNum m.epochNum e b
     txInfo := putAll m.txInfo none (b.txs.map (·.id))
     uncles := putAll m.uncles none b.uncles
     index := upd m.index b.number none
@@ -224,7 +246,7 @@ def detachCell (m : Main) (r : Recs) (b : Block) : Main :=
 
 /-- one step of `rollback`: `detach_block` *then* `detach_block_cell` -/
 def rollbackOne (v : View) (b : Block) : View :=
-  ⟨detachCell (detach v.m b) v.r b, v.r⟩
+  ⟨detachCell (detach v.m (epochOf v.r b.id) b) v.r b, v.r⟩
 
 /-- `rollback(fork)`: callers pass `detached.reverse` -/
 def rollback (v : View) : List Block → View
@@ -236,9 +258,9 @@ def rollback (v : View) : List Block → View
 def insertBlock (r : Recs) (b : Block) : Recs :=
   { r with bodies := upd r.bodies b.id (some b) }
 
-/-- `insert_epoch_ext`: the epoch row *and* the epoch-number → index row -/
+/-- `insert_epoch_ext_only`: the epoch record (what `verify_block` writes for a block that opens an epoch) -/
 def insertEpochExt (r : Recs) (e : EpochRec) : Recs :=
-  { r with epochExt := upd r.epochExt e.key (some e), epochNum := upd r.epochNum e.number (some e.key) }
+  { r with epochExt := upd r.epochExt e.key (some e) }
 
 def insertBlockEpoch (r : Recs) (b : Block) : Recs :=
   { r with blockEpoch := upd r.blockEpoch b.id (some b.epochRec.key) }
@@ -261,8 +283,12 @@ def okExt (e : Ext) (b : Block) : Ext := { e with verified := some true, fees :=
 (`ChainDB::init` for the first block, then what `reconcile_main_chain` + `verify_block` write for a
 block that extends the tip; this is also literally `ChainBuilder::attach` of the harness). -/
 
+/-- the epoch the reference store names in its number row: it calls `insert_epoch_ext` (record +
+number row) exactly for the blocks that open an epoch -/
+def headEpoch (b : Block) : Option EpochRec := if b.isHead then some b.epochRec else none
+
 def attachOneM (m : Main) (b : Block) : Main :=
-  { attachCell (attach m b) b with tip := some b.id, curEpoch := some b.epochRec }
+  { attachCell (attach m (headEpoch b) b) b with tip := some b.id, curEpoch := some b.epochRec }
 
 def attachOneR (r : Recs) (b : Block) : Recs :=
   let r1 := insertBlock r b
@@ -322,7 +348,7 @@ def mainBlocks (m : Main) (r : Recs) (lo : Nat) : Nat → List Block
 /-- attach one block of `fork.attached_blocks` inside `reconcile_main_chain`: blocks whose ext is
 already verified are attached as they are, the others get `insert_ok_ext` (every block is valid here) -/
 def reconcileOne (v : View) (b : Block) : View :=
-  let m := attachCell (attach v.m b) b
+  let m := attachCell (attach v.m (epochOf v.r b.id) b) b
   let r :=
     match v.r.ext b.id with
     | some e => if e.verified = none then putExt v.r b.id (okExt e b) else v.r
@@ -375,5 +401,20 @@ def truncate (v : View) (target : Nat) : View :=
   let tn := numberOf v.r tipId
   let lo := numberOf v.r target
   truncateWith v target (mainBlocks v.m v.r lo (tn - lo))
+
+/-! ### the behaviour before the repair of finding F9 (regression witnesses only)
+The number row was written by `insert_epoch_ext` inside `verify_block` for every block that opens
+an epoch, before the best-chain test, and never touched by attach / detach / truncate. -/
+namespace PreFix
+
+def process (v : View) (b : Block) : View :=
+  let v' := Store.process v b
+  ⟨{ v'.m with epochNum := if b.isHead then upd v.m.epochNum b.epochRec.number (some b.epochRec.key) else v.m.epochNum }, v'.r⟩
+
+def truncate (v : View) (target : Nat) : View :=
+  let v' := Store.truncate v target
+  ⟨{ v'.m with epochNum := v.m.epochNum }, v'.r⟩
+
+end PreFix
 
 end CkbVerif.Store
